@@ -180,6 +180,35 @@ CLAIMED.update({
     },
 })
 
+CLAIMED.update({
+    "C17": {
+        "text": "Index-file pairing clauses only: metadata pseudo-bin identified through Bin::metadata_id by all 12 reader/writer functions of "
+                "BAI/CSI/tabix (sync+async), evaluated id/chunk-count constants, pseudo-bin counted iff present, duplicate bins rejected, magic "
+                "numbers single-sourced, optional trailing count read as optional. Binning arithmetic (reg2bin ∈ reg2bins, optimize_chunks) and "
+                "byte layout are NOT decided.",
+        "note": "weak claim by design; the CSI loffset write transform (read(write(ix)) != ix, findings/repro f4) is query-equivalent after fix 42bd27d and therefore not armed",
+        "technique": "static analysis: caller sets, evaluated constants, presence/dominance of the pseudo-bin guards (MIR)",
+        "design_ref": "§5 C17",
+    },
+    "C19": {
+        "text": "Narrow claim: CRAM query returns records only behind the reference-id + interval test (sync and async), the container loader "
+                "filters index entries by reference, fs::index dispatches multi-reference slices to per-reference entries and derives the slice "
+                "length from landmarks, crai writer/reader columns. That spans and offsets are true and that query = scan for every layout are NOT decided.",
+        "note": "two genuine defects repaired (fix: 393a12a, 473fa0d); known finding F12a (fs::index decodes multi-reference slices with an empty repository) by exact key",
+        "technique": "static analysis: edge dominance of the filter over record-returning exits, dispatch reachability, data flow of the repository argument (MIR)",
+        "design_ref": "§5 C19",
+    },
+    "C20": {
+        "text": "Detection/dispatch tables: util magic literals equal the writers' constants (evaluated); reader-builder and writer-builder map "
+                "every (Format, CompressionMethod) key to the same inner variant with a constructor of that format crate and bgzf wrapping iff "
+                "compressed (HIR match-arm tables, alignment+variant, sync+async); detection window assumption (known finding F6); finish reaches "
+                "every arm; default compression. Conversions are NOT decided.",
+        "note": "R2 found a genuine defect (swapped BCF writer arms), repaired (fix: 087a76d); F6 listed by exact keys",
+        "technique": "static analysis: HIR match-table agreement between sibling builders, evaluated constants, fill_buf window classification",
+        "design_ref": "§5 C20",
+    },
+})
+
 NOT_APPLICABLE = {
     "C08": "every clause is numeric (rANS/arith/fqzcomp state arithmetic, ITF8/LTF8 bit arithmetic): correct and off-by-one "
            "implementations have the same code shape, so no sound static rule short of a solver/proof decides it; the "
